@@ -63,7 +63,7 @@ def check_static_unit(ctx, rule, unit, what, tier=None, tag=None):
     lines = open(unit).read().splitlines()
     tags = {}
     for i, l in enumerate(lines, 1):
-        if re.search(r'\bstatic_assert\s*\(', l):
+        if re.search(r'\bstatic_assert\s*\(', l) or re.search(r'//.*@C\d\d', l):     # a tagged line may expand a macro of asserts
             tags[i] = set(re.findall(r'@(C\d\d)', l))
     own = [i for i, t in tags.items() if tag is None or tag in t]
     n_asserts = len(own)
